@@ -276,9 +276,108 @@ func directFacts(f *ssa.Function) []branchFact {
 			continue
 		}
 		a, pos := decompose(iff.Cond)
+		// `err = f(); if err != nil`: the tested load of a variable assigned just before, in the same block, is that value
+		a.X = reachingDef(a.X)
+		if a.Y != nil {
+			a.Y = reachingDef(a.Y)
+		}
 		out = append(out, branchFact{E: edge{b, 0}, A: a, Holds: pos, If: iff}, branchFact{E: edge{b, 1}, A: a, Holds: !pos, If: iff})
 	}
 	return out
+}
+
+// reachingDef: v is a load of a local variable cell that was stored earlier in the same block with nothing in between
+// that can write the cell (another store to it, or - when a closure that assigns the cell exists - any call): the value
+// stored. Otherwise v.
+func reachingDef(v ssa.Value) ssa.Value {
+	ld, ok := v.(*ssa.UnOp)
+	if !ok || ld.Op != token.MUL {
+		return v
+	}
+	al, ok := ld.X.(*ssa.Alloc)
+	if !ok {
+		return v
+	}
+	blk := ld.Block()
+	if blk == nil {
+		return v
+	}
+	writtenElsewhere := false
+	for _, st := range cellStores(al) {
+		if st.Parent() != ld.Parent() {
+			writtenElsewhere = true
+		}
+	}
+	idx := -1
+	for i, in := range blk.Instrs {
+		if in == ssa.Instruction(ld) {
+			idx = i
+		}
+	}
+	for i := idx - 1; i >= 0; i-- {
+		switch x := blk.Instrs[i].(type) {
+		case *ssa.Store:
+			if x.Addr == ssa.Value(al) {
+				return x.Val
+			}
+		case ssa.CallInstruction:
+			if writtenElsewhere {
+				return v
+			}
+			_ = x
+		}
+	}
+	return v
+}
+
+// holdsValue: v is target itself, or a load of a local variable that was assigned target with no other assignment to the
+// variable on any path from that assignment to the load.
+func holdsValue(v, target ssa.Value) bool {
+	v = strip(v)
+	if v == target {
+		return true
+	}
+	ld, ok := v.(*ssa.UnOp)
+	if !ok || ld.Op != token.MUL {
+		return false
+	}
+	al, ok := ld.X.(*ssa.Alloc)
+	if !ok || ld.Block() == nil {
+		return false
+	}
+	stores := cellStores(al)
+	for _, st := range stores {
+		if strip(st.Val) != target || st.Parent() != ld.Parent() {
+			continue
+		}
+		if !(st.Block() == ld.Block() && instrIndex(st) < instrIndex(ld)) && !(st.Block() != ld.Block() && st.Block().Dominates(ld.Block())) {
+			continue
+		}
+		clean := true
+		from := reach(st.Block(), nil, nil)
+		for _, other := range stores {
+			if other == st {
+				continue
+			}
+			if other.Parent() != ld.Parent() {
+				clean = false // assigned by a closure: not tracked
+				continue
+			}
+			if sl, ok := strip(other.Val).(*ssa.UnOp); ok && sl.Op == token.MUL && sl.X == ssa.Value(al) {
+				continue // x = x
+			}
+			if other.Block() == st.Block() && instrIndex(other) < instrIndex(st) {
+				continue
+			}
+			if from[other.Block()] && reach(other.Block(), nil, nil)[ld.Block()] {
+				clean = false
+			}
+		}
+		if clean {
+			return true
+		}
+	}
+	return false
 }
 
 // edgesWhere selects the out-edges along which pred says the wanted fact is established.
